@@ -8,6 +8,8 @@ def explore(run, lean):
     run.extra["rule"] = ("statements generated from a grammar (reads inside arithmetic / comparison / call / subscript expressions, assignments and augmented assignments to the attribute, to other variables and to dict items, if-statements, trailing comments), rendered to a real module, executed, lock count read afterwards and compared with the Lean leak function; documented forms first")
     ROUND6_RULE = '; the same statements laid out over two physical lines (backslash continuation / break inside brackets)'
     run.extra["rule"] += ROUND6_RULE
+    ROUND8_RULE = "; statements derived from the library's own hook names (round 8)"
+    run.extra["rule"] = run.extra.get("rule", "") + ROUND8_RULE
 
 
 def replay(case):
